@@ -1,13 +1,13 @@
 SPECIFICATION Spec
 CONSTANTS
-  T = {1, 2, 3}
+  T = {1}
   StartKinds = {"dq", "di", "df", "uq"}
-  MaxTasks = 9
-  MaxCycles = 5
-  MaxOps = 3
-  MaxEnv = 9
-  MaxRequeue = 2
-  MaxOffers = 2
+  MaxTasks = 4
+  MaxCycles = 2
+  MaxOps = 1
+  MaxEnv = 2
+  MaxRequeue = 1
+  MaxOffers = 1
   MaxSplit = 1
   SkipOccupied = FALSE
   CallbackOwnOnly = FALSE
@@ -16,4 +16,9 @@ CONSTANTS
   OfferSkipsLocked = FALSE
   OfferSkipsOccupied = FALSE
   StartRechecks = FALSE
+INVARIANT TypeOK
+INVARIANT AtMostOneNegotiation
+INVARIANT SlotsTrackLive
+INVARIANT QuietNoTasks
+PROPERTY QuietAfterReturn
 CHECK_DEADLOCK FALSE
